@@ -36,11 +36,44 @@ impl Blob {
     pub fn new(seed: u64, len: usize) -> Blob {
         Blob { seed, len }
     }
-    /// seed 0 = all zero, seed 1 = all 0xFF, anything else = pseudo-random bytes
+    /// seed 0 = all zero, seed 1 = all 0xFF; seeds ending in hex 3 = bytes that look like a v2
+    /// header (signature, control bytes, a length field that does not match); seeds ending in hex 7
+    /// = a chain of small TLVs with registered, partly repeated types; anything else =
+    /// pseudo-random bytes
     pub fn bytes(&self) -> Vec<u8> {
         match self.seed {
             0 => vec![0u8; self.len],
             1 => vec![0xFFu8; self.len],
+            s if s & 0xF == 3 => {
+                let mut rng = Rng::new(s ^ 0xB10B);
+                let mut v = rng.bytes(self.len);
+                let mut img = SIG.to_vec();
+                img.extend_from_slice(&[0x20 | (rng.below(2) as u8), ((rng.below(4) as u8) << 4) | rng.below(3) as u8]);
+                img.extend_from_slice(&(rng.below(300) as u16).to_be_bytes());
+                let n = img.len().min(v.len());
+                v[..n].copy_from_slice(&img[..n]);
+                v
+            }
+            s if s & 0xF == 7 => {
+                let mut rng = Rng::new(s ^ 0xB10B);
+                let mut v = Vec::with_capacity(self.len);
+                let kinds = [0x01u8, 0x02, 0x03, 0x04, 0x05, 0x20, 0x30, 0x05, 0x30, 0x20];
+                let mut last = *rng.pick(&kinds);
+                while v.len() + 3 <= self.len {
+                    let room = self.len - v.len() - 3;
+                    let l = (rng.below(9) as usize).min(room);
+                    let k = if rng.chance(1, 3) { last } else { *rng.pick(&kinds) };
+                    last = k;
+                    v.push(k);
+                    v.push(0);
+                    v.push(l as u8);
+                    for _ in 0..l {
+                        v.push(rng.u8());
+                    }
+                }
+                v.resize(self.len, 0);
+                v
+            }
             _ => Rng::new(self.seed ^ 0xB10B).bytes(self.len),
         }
     }
@@ -79,9 +112,10 @@ impl Addr {
         let mut rng = Rng::new(seed ^ 0x0517);
         let one = |rng: &mut Rng| -> [u8; 108] {
             let mut p = [0u8; 108];
-            const DICT: [&[u8]; 14] = [
+            const DICT: [&[u8]; 22] = [
                 b"/var/run/haproxy.sock", b"/tmp/s", b"unix@/run/app.sock", b"abns@backend", b"unix@", b"abns@", b"\0abstract-name", b"./relative.sock",
                 b"unix:/run/x", b"fd@3", b"sockpair@4", b"ipv4@127.0.0.1", b"@", b"/",
+                b"/tmp///x.sock", b"////", b"a//b///c////d", b"/run/../run/./x", b"/trailing/slash/", b" /leading-space", b"/tab\there", b"C:\\pipe\\x",
             ];
             match rng.below(8) {
                 0 | 1 => rng.fill(&mut p),
@@ -929,6 +963,72 @@ pub fn lens_history(idx: u64, rng: &mut Rng) -> History {
         ops.push(Op::Write(rand_int(rng)));
     }
     History { ctor, ops }
+}
+
+/// Encoded size of what an op appends (None when it must be refused).
+pub fn op_len(op: &Op) -> Option<usize> {
+    match op {
+        Op::Reserve(_) | Op::SetLength(_) => Some(0),
+        Op::Write(v) => v.encode().ok().map(|e| e.len()),
+        Op::WriteTlv(_, b) | Op::WriteTlvType(_, b) => {
+            if b.len <= MAX_PAYLOAD {
+                Some(3 + b.len)
+            } else {
+                None
+            }
+        }
+        Op::Batch(vs) => {
+            let mut n = 0;
+            for v in vs {
+                n += v.encode().ok()?.len();
+            }
+            Some(n)
+        }
+    }
+}
+
+/// Relations between calls that a generator of independent random calls hardly ever produces:
+/// capacity reservations that add up exactly to what is written (one up front, or one before
+/// each write), the same call twice in a row, the constructor's address value written once more
+/// as the first payload.
+pub fn decorate_history(h: &mut History, rng: &mut Rng) {
+    match rng.below(5) {
+        0 => {
+            let sum: usize = h.ops.iter().filter_map(op_len).sum();
+            if rng.coin() || sum < 2 {
+                h.ops.insert(0, Op::Reserve(sum));
+            } else {
+                let a = rng.below(sum as u64) as usize;
+                h.ops.insert(0, Op::Reserve(sum - a));
+                h.ops.insert(0, Op::Reserve(a));
+            }
+        }
+        1 => {
+            let mut ops = Vec::new();
+            for op in h.ops.drain(..) {
+                if let Some(n) = op_len(&op) {
+                    if n > 0 {
+                        ops.push(Op::Reserve(n));
+                    }
+                }
+                ops.push(op);
+            }
+            h.ops = ops;
+        }
+        2 | 3 => {
+            if !h.ops.is_empty() {
+                let i = rng.below(h.ops.len() as u64) as usize;
+                let dup = h.ops[i].clone();
+                h.ops.insert(i, dup);
+            }
+        }
+        _ => {
+            if let Ctor::WithAddr(_, _, a) = &h.ctor {
+                let again = Op::Write(Val::Addr(a.clone()));
+                h.ops.insert(0, again);
+            }
+        }
+    }
 }
 
 /// Histories related to `h`, to be run right after it on the same thread: building is specified
